@@ -125,6 +125,19 @@ func parPhase(w *world, tc *caseT) *mismatch {
 					if e != "nil" {
 						first[x] = e
 					}
+					// CtxTreePre17!LockedPropagation (bound for the hand written tree only; the documented contract does not
+					// promise it): Err takes the lock cancel holds while it cancels the children, so whoever has seen the
+					// Err of a canceler finds every canceler registered below it cancelled
+					if pre17Build && w.cancels[x] != nil {
+						o := w.parent[x]
+						for o != 0 && w.cancels[o] == nil {
+							o = w.parent[o]
+						}
+						if o != 0 && w.ctxs[o].Err() != nil && c.Err() == nil {
+							report(&mismatch{what: fmt.Sprintf("concurrent phase: context %d: Err() is nil after Err() of context %d, where it is registered, was seen non-nil: cancel released the lock before it cancelled the children", x, o),
+								dev: "X02/unlock-early"})
+						}
+					}
 					c.Deadline()
 					for _, k := range tc.Keys {
 						c.Value(ctxKey(k))
@@ -294,7 +307,7 @@ func concBatch(stage string) rp.Batch {
 		}
 		rounds := 3
 		if c.Tier == "thorough" {
-			rounds = 12
+			rounds = 6
 		}
 		if v, err := strconv.Atoi(c.Extra["rounds"]); err == nil && v > 0 {
 			rounds = v
